@@ -56,16 +56,17 @@ def c42(thorough):
           H("VerifC42Disconnect"), H("VerifC42Auth"),
           H("VerifC42Subscribe", VER=5, F=2), H("VerifC42Subscribe", VER=4, F=2),
           H("VerifC42Unsubscribe", VER=5), H("VerifC42Unsubscribe", VER=4),
-          H("VerifC42Publish", VER=5, PROPS=6 if thorough else 4), H("VerifC42Publish", VER=4)]
+          H("VerifC42Publish", VER=5, PROPS=6 if thorough else 4), H("VerifC42Publish", VER=4),
+          H("VerifC42Connect", VER=5), H("VerifC42Connect", VER=4)]
     return hs
 C["C42"] = {
  "pkgs": ["./packets"],
  "technique": "differential symbolic execution: reference encoder written from the MQTT spec (intended fields symbolic, encoding choices as decisions) vs the real decoders; every equality is an SMT query",
  "quick": {"harnesses": c42(False), "budget_s": 300, "witnesses": 6,
-   "bounds": "acks: 16-bit id, 8-bit reason, forms rl=2/3/full, <=2 properties in both orders, strings <=2 bytes; DISCONNECT/AUTH: forms rl=0/1/2/full, <=3 properties in all 6 orders; SUBSCRIBE: 1-2 filters of 1-2 bytes, all option bits, subscription identifier over the whole 28-bit range (4 length classes), 2 property orders; PUBLISH: QoS 0-2, <=3 of 4 properties in every order"},
+   "bounds": "acks: 16-bit id, 8-bit reason, forms rl=2/3/full, <=2 properties in both orders, strings <=2 bytes; DISCONNECT/AUTH: forms rl=0/1/2/full, <=3 properties in all 6 orders; SUBSCRIBE: 1-2 filters of 1-2 bytes, all option bits, subscription identifier over the whole 28-bit range (4 length classes), 2 property orders; PUBLISH: QoS 0-2, <=3 of 4 properties in every order; CONNECT (protocol 4/5): every combination of clean start, will (QoS, retain), user name and password presence (password without user name for MQTT 5), 16-bit keepalive, two connect properties in both orders"},
  "thorough": {"harnesses": c42(True), "budget_s": 1800, "witnesses": 16,
    "bounds": "as quick; PUBLISH chooses <=3 of 6 properties in every order"},
- "outside_bounds": ["CONNECT property orders (covered for value fidelity by C26)", "longer strings / more than 3 simultaneous properties / repeated user properties beyond 1", "the behavioural clause (DISCONNECT 0x04 publishes the will) is decided at handler level in C16"],
+ "outside_bounds": ["longer strings / more than 3 simultaneous properties / repeated user properties beyond 1", "the behavioural clause (DISCONNECT 0x04 publishes the will) is decided at handler level in C16"],
  "stubs": ["utf8.Valid: exact term-level encoding"],
  "trusted_base": ENGINE_TB + ["reference encoder harness/packets/ref.go (50 lines, from MQTT 5 sections 2.2.2, 3.4-3.7, 3.8, 3.10, 3.14, 3.15)"],
 }
@@ -158,9 +159,9 @@ C["C07"] = {
 C["C37"] = {
  "pkgs": ["."],
  "technique": "symbolic execution of refreshDeadline/Read with the keepalive as a 16-bit solver variable; deadline arithmetic (x 1e9, x3/2) decided bit-precisely on 64-bit vectors",
- "quick": {"harnesses": [H("VerifC37Deadline"), H("VerifC37Rearm")], "budget_s": 120, "witnesses": 6,
-   "bounds": "keepalive: all 65536 values symbolically; re-arming: 0..2 packets read"},
- "thorough": {"harnesses": [H("VerifC37Deadline"), H("VerifC37Rearm")], "budget_s": 300, "witnesses": 12, "bounds": "as quick"},
+ "quick": {"harnesses": [H("VerifC37Deadline"), H("VerifC37Rearm"), H("VerifC37Partial")], "budget_s": 120, "witnesses": 6,
+   "bounds": "keepalive: all 65536 values symbolically; re-arming: 0..2 packets read; a PINGREQ arriving 1..5 s after the previous read, alone or followed by the first byte of the next packet, keepalive 10 or 60: the deadline in force while waiting lies >= 1.5 K after that arrival"},
+ "thorough": {"harnesses": [H("VerifC37Deadline"), H("VerifC37Rearm"), H("VerifC37Partial")], "budget_s": 300, "witnesses": 12, "bounds": "as quick"},
  "outside_bounds": ["that the runtime's net.Conn honours SetDeadline", "sub-second rounding"],
  "stubs": SRV_STUBS + ["time.Time: (seconds, extra nanoseconds) pair; Add/Sub exact"], "trusted_base": SRV_TB,
 }
@@ -240,7 +241,7 @@ C["C12"] = {
 C["C09"] = {
  "pkgs": ["."],
  "technique": "bounded symbolic execution of delivery, acknowledgement steps, disconnect and session takeover (inheritClientSession, Inflight.Clone, ResendInflightMessages); resend transcript parsed by the reference decoder and compared with a client-side model",
- "quick": {"harnesses": [H("VerifC09Redeliver", MSGS=2, ACKS=2)], "budget_s": 300, "witnesses": 8, "perm_limit": 1,
+ "quick": {"harnesses": [H("VerifC09Redeliver", MSGS=2, ACKS=2), H("VerifC09Redeliver", MSGS=3, ACKS=3)], "budget_s": 300, "witnesses": 8, "perm_limit": 1,
    "bounds": "2 messages with symbolic QoS 1/2, client Receive Maximum 1..2, 0..2 acknowledgement steps (PUBACK / PUBREC / PUBCOMP), one reconnect with Clean Start 0"},
  "thorough": {"harnesses": [H("VerifC09Redeliver", MSGS=3, ACKS=4)], "budget_s": 1800, "witnesses": 16, "perm_limit": 2, "bounds": "3 messages, 0..4 acknowledgement steps"},
  "outside_bounds": ["message expiry during the session (C25)", "several reconnections", "map order of the harness's own model (perm_limit 1)"],
@@ -513,17 +514,17 @@ C["C39"] = {
 C["C36"] = {
  "pkgs": [".", "./listeners"],
  "technique": "context-bounded symbolic execution of the real Server.Close, Listeners.CloseAll, closeListenerClients and the real connection handlers (attachClient with WriteLoop) as interpreted goroutines: the position of the second connection relative to Close (waiting for CONNECT, handed over concurrently, scheduled after Close) and every switch at synchronisation operations within the pre-emption / scheduling bound are engine decisions; obligations asserted at quiescence",
- "quick": {"harnesses": [H("VerifC36Shutdown", STAGE=0, PREEMPT=1, SCHED=1), H("VerifC36Shutdown", STAGE=1, PREEMPT=1, SCHED=1), H("VerifC36Shutdown", STAGE=2, PREEMPT=1, SCHED=1), H("VerifC36Shutdown", STAGE=3, PREEMPT=1, SCHED=1)], "budget_s": 900, "witnesses": 3, "perm_limit": 1,
-   "bounds": "one listener (the repository's MockListener); connection 1 (protocol 4/5) attached before Close; connection 2 (protocol 4/5) waiting for its CONNECT when Close is called (CONNECT arrives during the shutdown), or handed to its handler goroutine concurrently with Close, or absent, or first scheduled after Close returned; at most 1 pre-emption at a synchronisation operation and at most 1 non-default choice among runnable goroutines when one blocks"},
- "thorough": {"harnesses": [H("VerifC36Shutdown", STAGE=0, PREEMPT=2, SCHED=1), H("VerifC36Shutdown", STAGE=1, PREEMPT=1, SCHED=2), H("VerifC36Shutdown", STAGE=2, PREEMPT=2, SCHED=1), H("VerifC36Shutdown", STAGE=3, PREEMPT=1, SCHED=2)], "budget_s": 3000, "witnesses": 3, "perm_limit": 1,
+ "quick": {"harnesses": [H("VerifC36Shutdown", STAGE=0, PREEMPT=1, SCHED=1), H("VerifC36Shutdown", STAGE=1, PREEMPT=1, SCHED=1), H("VerifC36Shutdown", STAGE=2, PREEMPT=1, SCHED=1), H("VerifC36Shutdown", STAGE=3, PREEMPT=1, SCHED=1), H("VerifC36Shutdown", STAGE=4, PREEMPT=0, SCHED=1, PERM=2)], "budget_s": 900, "witnesses": 3, "perm_limit": 1,
+   "bounds": "one listener (the repository's MockListener); connection 1 (protocol 4/5) attached before Close; connection 2 (protocol 4/5) waiting for its CONNECT when Close is called (CONNECT arrives during the shutdown), or handed to its handler goroutine concurrently with Close, or absent, or first scheduled after Close returned, or attached through a second listener (both orders of closing the listeners); at most 1 pre-emption at a synchronisation operation and at most 1 non-default choice among runnable goroutines when one blocks"},
+ "thorough": {"harnesses": [H("VerifC36Shutdown", STAGE=0, PREEMPT=2, SCHED=1), H("VerifC36Shutdown", STAGE=1, PREEMPT=1, SCHED=2), H("VerifC36Shutdown", STAGE=2, PREEMPT=2, SCHED=1), H("VerifC36Shutdown", STAGE=3, PREEMPT=1, SCHED=2), H("VerifC36Shutdown", STAGE=4, PREEMPT=1, SCHED=1, PERM=2)], "budget_s": 3000, "witnesses": 3, "perm_limit": 1,
    "bounds": "as quick with 2 pre-emptions (stages 0, 2) or 2 non-default scheduling choices (stages 1, 3)"},
  "outside_bounds": ["the listeners' accept loops, net.Listener.Close / Accept and http.Server.Shutdown (runtime and net package: not encoded; the accept loop is represented by its effect, a goroutine calling the establish function)", "more than two connections, more than one listener", "schedules beyond the pre-emption / scheduling bound", "the event loop goroutine (Serve is not called)"],
  "stubs": SRV_STUBS + LIVE, "trusted_base": SRV_TB,
 }
 
 # ---------------- C33 (data races) ----------------
-C33_MENUS_QUICK = [13, 3076, 67]           # bit masks over the 13 activities, see harness/root/c33.go
-C33_MENUS_THOROUGH = [13, 3076, 67, 4161]  # (sub-menus containing a housekeeping round have too many lock releases for one pre-emption)
+C33_MENUS_QUICK = [13, 3076, 67, 8448]           # bit masks over the 13 activities, see harness/root/c33.go
+C33_MENUS_THOROUGH = [13, 3076, 67, 4161, 8448]  # (sub-menus containing a housekeeping round have too many lock releases for one pre-emption)
 def c33(thorough):
     hs = [H("VerifC33SelfTest", pkg="./mempool", RACE_HARNESS=1), H("VerifC33Pair", ACTS=2, PRE=0, SCH=1, PERM=1)]
     if thorough:
@@ -538,7 +539,7 @@ C["C33"] = {
  "pkgs": [".", "./listeners", "./mempool"],
  "technique": "happens-before (vector clock) race analysis over bounded symbolic execution of concurrent scenarios: the real connection handlers, WriteLoops, housekeeping rounds and inline API calls run as interpreted goroutines; every load/store of interpreted memory is recorded, every synchronisation operation (go, Mutex/RWMutex, sync/atomic, channels, WaitGroup, Once, Pool, context) transfers clocks; scenario choice, inputs and goroutine switches are engine decisions whose feasibility the solver decides; a race is two conflicting accesses on a feasible path that no happens-before chain orders, replayed natively under the Go race detector",
  "quick": {"harnesses": c33(False), "budget_s": 1200, "witnesses": 1, "perm_limit": 1, "race_check": True,
-   "bounds": "control: a race planted in the harness's own code must be found (and the mutex- and channel-ordered accesses next to it must not); scenario: clients a (delayed will) and b (persistent subscriber, also member of a share group), protocol 4/5 each, pre-state {b holds an unacknowledged message and a retained message exists} x {a offline with its delayed will pending}; (i) every pair of distinct activities among the 13 {a publishes QoS 1 retained, b acknowledges, b subscribes (plain / share group), b unsubscribes (plain / share group), a disconnects, a's connection is lost, takeover of b, a connects again, housekeeping round with everything expired, housekeeping round now, inline Publish, inline Subscribe+Unsubscribe, Server.Close} started together under cooperative scheduling with at most one non-default choice among runnable goroutines; (ii) for three sub-menus of three activities ({publish, subscribe, unsubscribe}, {subscribe, inline Publish, inline Subscribe+Unsubscribe}, {publish, acknowledge, takeover}), every pair with one pre-emption placed right after a lock release (the use-after-unlock window)"},
+   "bounds": "control: a race planted in the harness's own code must be found (and the mutex- and channel-ordered accesses next to it must not); scenario: clients a (delayed will) and b (persistent subscriber, also member of a share group), protocol 4/5 each, pre-state {b holds an unacknowledged message and a retained message exists} x {a offline with its delayed will pending}; (i) every pair of distinct activities among the 14 {a publishes QoS 1 retained, b acknowledges, b subscribes (plain / share group), b unsubscribes (plain / share group), a disconnects, a's connection is lost, takeover of b, a connects again, housekeeping round with everything expired, housekeeping round now, inline Publish, inline Subscribe+Unsubscribe, Server.Close, a disconnects changing its session expiry} started together under cooperative scheduling with at most one non-default choice among runnable goroutines; (ii) for four sub-menus ({publish, subscribe, unsubscribe}, {subscribe, inline Publish, inline Subscribe+Unsubscribe}, {publish, acknowledge, takeover}, {disconnect with new session expiry, housekeeping}), every pair with one pre-emption placed right after a lock release (the use-after-unlock window)"},
  "thorough": {"harnesses": c33(True), "budget_s": 10000, "witnesses": 1, "perm_limit": 1, "race_check": True,
    "bounds": "as quick, with the pre-emption of (ii) at any synchronisation operation and a fourth sub-menu {publish, takeover, Close}, and triples of activities from a sub-menu of five under cooperative scheduling"},
  "outside_bounds": ["a happens-before analysis sees the races of the schedules it explores: a race that needs more pre-emptions, other activities or other pre-states is not reported (bug-finding strength within the bound, not a proof of race freedom)", "accesses inside engine-stubbed code (net.Conn, bufio, time, slog, storage engines) and element accesses made through the copy/append built-ins are not recorded", "memory-model effects below sequential consistency", "listeners' accept loops (as for C36)"],
